@@ -8,6 +8,7 @@ import (
 	"bytes"
 	"encoding/json"
 	"fmt"
+	"math/big"
 	"os"
 	"strconv"
 
@@ -169,6 +170,37 @@ func memCheck(args []string) {
 			if limbs(sb.S) != keep {
 				viol(name, [3]int{}, "scalar argument changed")
 				sb.S = keep
+			}
+		}
+	}
+	// element arguments keep their value: every method taking an *Element, with the receiver in the states a fast path might
+	// single out (identity as created, identity as a result, the base point, an unrelated point, a copy of the argument) and
+	// the argument a valid element in some representation (or the identity)
+	for it := 0; it < n; it++ {
+		_, rawArg := r.point()
+		argStates := []rawPt{rawArg, proj(apt{inf: true}, big.NewInt(1)), proj(aG, big.NewInt(1))}
+		for _, ra := range argStates {
+			recvs := map[string]func() *secp.Element{
+				"identity(new)":    func() *secp.Element { return secp.NewElement() },
+				"identity(P-P)":    func() *secp.Element { q := secp.Base(); return q.Subtract(secp.Base()) },
+				"base":             func() *secp.Element { return secp.Base() },
+				"point":            func() *secp.Element { _, rr := r.point(); return el(rr) },
+				"copy-of-argument": func() *secp.Element { return el(ra) },
+			}
+			for rname, mk := range recvs {
+				for name, f := range map[string]func(e, a *secp.Element){
+					"Element.Add": func(e, a *secp.Element) { e.Add(a) }, "Element.Subtract": func(e, a *secp.Element) { e.Subtract(a) },
+					"Element.Equal": func(e, a *secp.Element) { e.Equal(a) }, "Element.Set": func(e, a *secp.Element) { e.Set(a) },
+				} {
+					arg := el(ra)
+					before := secp.VerifRaw(arg)
+					f(mk(), arg)
+					rep.Calls++
+					rep.PerFn[name]++
+					if secp.VerifRaw(arg) != before {
+						viol(name, [3]int{}, "element argument changed (receiver: "+rname+", argument "+showP(ra)+")")
+					}
+				}
 			}
 		}
 	}
